@@ -14,6 +14,11 @@ re-implementation of the CLEAR definitions applied to the per-label buckets of c
 counters are the sums of the frame counters; renaming track ids leaves every score unchanged).
 
 Theorems: coq/theories/Props/C05Pipeline.v.
+
+Wiring (done by the owner of harness/props/C05.py): add `TrackingPipelineCorr()` to `C05.correspondences()`,
+`extra_props_files = ["Props/C05Pipeline.v"]`, a `cleanup` that calls `MC.cleanup_tmp(all_pids=True)`, and -- only if the
+cross-label observation below is listed as a known finding of C05 with class `CROSS_CLASS` -- `known_match` /
+`known_probe` of this module.  LEVEL_TEXT / RULE / ASSUMPTIONS / NOT_PROVED at the end of this file are the metadata.
 """
 import math
 
@@ -27,6 +32,39 @@ DIST = ("center", "plane")
 CFG_KEY = {"center": "center_distance_thresholds", "iou2d": "iou_2d_thresholds", "iou3d": "iou_3d_thresholds", "plane": "plane_distance_thresholds"}
 EPS = 1e-9
 KEYERROR_MSG = "add_frame_result raised KeyError on a legitimate tracking history"
+# An observation that is reported only if the main session lists it as a known finding of C05 (class below); otherwise it is
+# tallied in the evidence distribution (`cross_label_pairs_skipped_by_clear`).  See C05_pipeline_skipped_are_cross_label.
+CROSS_CLASS = "cross-label-pair-skipped-by-clear"
+CROSS_PREFIX = "[" + CROSS_CLASS + "] "
+_listed = {}
+
+
+def finding_listed(cls):
+    if cls not in _listed:
+        from harness.lib.core import load_known
+
+        _listed[cls] = any(f.get("property") == "C05" and f.get("status") == "known" and f.get("class") == cls for f in load_known())
+    return _listed[cls]
+
+
+def known_match(finding, corr_name, case, obs, msg):
+    """to be called from C05.known_match: oracle messages of TrackingPipelineCorr that fall under a listed finding"""
+    return finding.get("class") == CROSS_CLASS and isinstance(msg, str) and msg.startswith(CROSS_PREFIX)
+
+
+def known_probe(finding):
+    """is the cross-label observation still reproducible?  (a car estimate paired with a pedestrian ground truth by the
+    second matching stage is in the CAR bucket and is neither TP nor FP of any CLEAR)"""
+    if finding.get("class") != CROSS_CLASS:
+        return False
+    case = _case("probe", [_frame(0, [_obj("pedestrian", [5.0, 5.0, 0.0], "g0")], [_obj("car", [5.25, 5.0, 0.0], "t0")])], ["car", "pedestrian"],
+                 {"center": [[1.0, 0.5]], "iou2d": [], "iou3d": [], "plane": []})
+    try:
+        o = run_history(case, tag="trkprobe")
+    finally:
+        MC.cleanup_tmp()
+    c = o["frames"][0]["scores"][0]["clears"][0]
+    return c["predict_num"] == 1 and c["tp"] == 0 and c["fp"] == 0
 
 
 # ------------------------------------------------------------------------------------------------
@@ -271,6 +309,11 @@ def check_clear_obs(where, c, history, L, mi, thr, ngt, allow_unknown, tally):
     b = recount(history, L, mi, thr, allow_unknown, own=True)
     if tp + fp != a[4]:
         return f"{where}: TP+FP = {tp}+{fp} but {a[4]} results of the evaluated label after the first frame (each counts exactly once)"
+    if a[4] != n_pred and "_known" not in tally and finding_listed(CROSS_CLASS):
+        cross = [r for f in history[1:] for r in f if _thr_label(r) != L and r[2] is not None and r[2][1] != "false_positive"]
+        if cross:
+            tally["_known"] = (f"{CROSS_PREFIX}{where}: {n_pred} results in the label's buckets after the first frame but TP+FP = {tp}+{fp}: "
+                               f"{len(cross)} estimate(s) of label {L} paired with a ground truth of another label are neither TP nor FP of any CLEAR")
     if all(_unique(f) for f in history):
         if (tp, fp, sw) != a[:3] and (tp, fp, sw) != b[:3]:
             return f"{where}: (tp, fp, id_switch) = ({tp}, {fp}, {sw}) but the definitions give {a[:3]}"
@@ -407,7 +450,7 @@ def oracle_history(case, obs, tally=None):
                 continue
             if not _close(None if c[key] is None else float(c[key]), None if v is None else float(v)):
                 return f"{exp.get('shape', 'shape')}: expected scene {key} = {v} for {c['label']}, got {c[key]}"
-    return None
+    return tally.get("_known")
 
 
 # ------------------------------------------------------------------------------------------------
@@ -663,7 +706,7 @@ class TrackingPipelineCorr(Corr):
 
     def cases(self, tier, rng):
         out = gen_boundary(rng, tier) + gen_shapes(rng, tier)
-        for _ in range(70 if tier == "quick" else 1200):
+        for _ in range(100 if tier == "quick" else 1200):
             out.append(gen_random_scene(rng, tier))
         return out
 
@@ -742,5 +785,40 @@ class TrackingPipelineCorr(Corr):
                     for L in c["targets"]:
                         d["frame_label_gaps"] += (not o_bucket(f["results"], f["bl"], L)) and bool(o_bucket(o["frames"][i - 1]["results"], f["bl"], L))
             oracle_history(c, o, tally)
+        tally.pop("_known", None)
         d.update(tally)
         return d
+
+
+# ------------------------------------------------------------------------------------------------
+# metadata for the property that hosts this correspondence
+# ------------------------------------------------------------------------------------------------
+LEVEL_TEXT = ("Tracking glue (Props/C05Pipeline.v, closed under the global context), for ALL histories of frame results, all configured threshold "
+              "lists and target labels: the loop model of divide_objects / evaluate_frame's tracking branch / evaluate_tracking / TrackingMetricsScore "
+              "equals, per (mode, threshold list) and label L, CLEAR([L],[t]) of the two-frame history [bucket L (frame i-1); bucket L (frame i)] "
+              "with the current frame's critical ground-truth count (first frame: empty predecessor), so every result of the bucket whose threshold "
+              "label is L is exactly one of TP/FP and the skipped ones are exactly the cross-label pairs; add_frame_result threads the immediately "
+              "preceding frame; get_scene_result is CLEAR of [[]; b1; ...; bn] with summed ground truths and its TP/FP/switch/result/score/ground-truth "
+              "counters are the SUMS of the frame-level counters, hence scene MOTA/MOTP are the formulas on the sums; the buckets partition the object "
+              "results (Permutation with the dropped ones, duplicate-free keys, d[L] = filter); under per-frame uniqueness the counters are the "
+              "declarative TP/FP/switch counts; every injective renaming of estimated / ground-truth ids leaves every frame score, the scene score and "
+              "the whole manager run unchanged; totals are the weighted formulas. Tie: the real manager in tracking mode on generated multi-frame "
+              "histories, every frame's and the scene's tracking_scores / _sum_clear() / num_ground_truth reproduced by the model inside Coq.")
+RULE = ("real PerceptionEvaluationManager(evaluation_task=tracking) on the bundled fixture; hand-built boundary histories (KeyError regression witness, "
+        "empty frames, carry-over beyond the threshold, scores exactly on the threshold, new id / swap / swap back, uuid shared across labels, cross-label "
+        "pairs, unknown estimates, FP-labelled ground truths, range filters, permuted critical target labels) x {base_link, map} x {allow_matching_unknown}; "
+        "tracker shapes with the totals the property text demands; random scenes of 2-8 (quick) / 2-14 (thorough) frames, <= 7 persistent ground-truth tracks "
+        "with births, deaths, misses, ground-truth gaps, id changes, identity swaps, label changes, spurious and out-of-range estimates, 1-4 target labels with "
+        "per-label thresholds, 1-6 configured scores, 4 critical filters (also changing per frame), random rational ego pose; a consistently renamed copy of "
+        "the history is run in 35-60% of the cases; non-trivial = at least two frames and at least one TP or FP in the scene")
+ASSUMPTIONS = ["3D tracking task: scores in the order centre distance, IoU 2D, IoU 3D, plane distance (tracking2d not modelled)",
+               "every configured threshold list has one entry per target label (asserted by TrackingMetricsScore)",
+               "the evaluated target labels are among the critical filter's target labels (otherwise the dictionary lookup fails: model None); "
+               "scene = sum of frames additionally needs the same label membership in both lists and duplicate-free target labels",
+               "facts (uuids, labels, is_fp, is_label_correct, get_matching(mode).value, critical ground-truth labels) are read after matching and "
+               "filtering through public attributes; matching and filtering themselves are C01/C02/C10/C03"]
+NOT_PROVED = ["the matcher and the filters in front of the glue (other properties); float rounding of score sums (1e-9)",
+              "observation, not claimed as a violation: an estimate of target label L paired by the second matching stage with a ground truth of another "
+              "label sits in bucket L but CLEAR([L]) looks up the GROUND TRUTH's label and skips it -- it is neither TP nor FP of any CLEAR "
+              "(C05_pipeline_skipped_are_cross_label; tallied as cross_label_pairs_skipped_by_clear)",
+              "known finding F14 is reachable through the manager with FP-labelled ground truths (tallied as prev_tp_reading_differs; the oracle accepts either reading)"]
